@@ -238,9 +238,9 @@ theorem inv_lp5 {s s' : Sys} {h : Nat} (hs : step s (Ev.lp5 h) = some s') :
 
 theorem inv_loadIdx {s s' : Sys} {k gIx : Nat} (hs : step s (Ev.loadIdx k gIx) = some s') :
     gIx ≤ s.pubGen ∧ (s.slots k).wlock = false ∧
-    (s' = s ∨ ∃ b st, (s.slots k).gen ≤ gIx ∧ (s.slots k).files = some b
-        ∧ (st = LoadSt.loaded ∨ st = LoadSt.missing)
-        ∧ s' = s.setSlot k { s.slots k with files := some { b with idx := st } }) := by
+    (s' = s ∨ ∃ b b', (s.slots k).gen ≤ gIx ∧ (s.slots k).files = some b
+        ∧ b'.ident = b.ident
+        ∧ s' = s.setSlot k { s.slots k with files := some b' }) := by
   simp only [step] at hs
   split at hs
   · rename_i hc
@@ -252,10 +252,12 @@ theorem inv_loadIdx {s s' : Sys} {k gIx : Nat} (hs : step s (Ev.loadIdx k gIx) =
       · cases hs; exact Or.inl rfl
       · rename_i b hf
         split at hs
-        · cases hs; exact Or.inl rfl
         · split at hs
-          · cases hs; exact Or.inr ⟨b, LoadSt.loaded, by omega, hf, Or.inl rfl, rfl⟩
-          · cases hs; exact Or.inr ⟨b, LoadSt.missing, by omega, hf, Or.inr rfl, rfl⟩
+          · cases hs; exact Or.inr ⟨b, b.resetPacks, by omega, hf, rfl, rfl⟩
+          · cases hs; exact Or.inl rfl
+        · split at hs
+          · cases hs; exact Or.inr ⟨b, { (if b.multi then b.resetPacks else b) with idx := LoadSt.loaded }, by omega, hf, by (split <;> rfl), rfl⟩
+          · cases hs; exact Or.inr ⟨b, { b with idx := LoadSt.missing }, by omega, hf, rfl, rfl⟩
   · cases hs
 
 theorem inv_consBegin {s s' : Sys} {h : Nat} (hs : step s (Ev.consBegin h) = some s') :
